@@ -2,6 +2,7 @@ package counts
 
 import (
 	"fmt"
+	"math/bits"
 )
 
 // Humanable is a quantity that can be made human-readable using
@@ -76,20 +77,44 @@ func (h *Humaner) FormatNumber(n uint64, unit string) (numeral string, unitStrin
 		return fmt.Sprintf("%d", n), unit
 	}
 
-	mantissa := float64(n) / float64(prefix.Multiplier)
-	var format string
+	var decimals int
 
 	switch {
 	case wholePart >= 100:
-		// `mantissa` can actually be up to 1023.999.
-		format = "%.0f"
+		// The mantissa can actually be up to 1023.999.
+		decimals = 0
 	case wholePart >= 10:
-		format = "%.1f"
+		decimals = 1
 	default:
-		format = "%.2f"
+		decimals = 2
 	}
 
-	return fmt.Sprintf(format, mantissa), prefix.Name + unit
+	return formatQuotient(n, prefix.Multiplier, decimals), prefix.Name + unit
+}
+
+// formatQuotient formats `n / multiplier`, rounded to `decimals`
+// decimal places. It uses integer arithmetic, because values above
+// 2^53 cannot be converted to `float64` exactly, which made numbers
+// very close to a rounding boundary come out on the wrong side of it.
+// `multiplier` must be greater than 100.
+func formatQuotient(n, multiplier uint64, decimals int) string {
+	scale := uint64(1)
+	for i := 0; i < decimals; i++ {
+		scale *= 10
+	}
+
+	// Compute `n * scale / multiplier` using a 128-bit intermediate
+	// value, rounding to nearest:
+	hi, lo := bits.Mul64(n, scale)
+	q, r := bits.Div64(hi, lo, multiplier)
+	if r >= multiplier-r {
+		q++
+	}
+
+	if decimals == 0 {
+		return fmt.Sprintf("%d", q)
+	}
+	return fmt.Sprintf("%d.%0*d", q/scale, decimals, q%scale)
 }
 
 // Format formats values, aligned, in `len(unit) + 10` or fewer
